@@ -107,6 +107,7 @@ Expected(s) ==
       [] s.op = "remove_rows" -> RemoveRows(s.f, SeqToSet(s.rows))
       [] s.op = "remove_zero_rows" -> RemoveZeroRows(s.f)
       [] s.op = "remove_zero_columns" -> RemoveZeroColumns(s.f)
+      [] s.op = "rzc_rzr" -> RemoveZeroRows(RemoveZeroColumns(s.f))            \* the two clean-ups in a row (a function without inputs in between)
       [] s.op \in {"from_row_iter", "view_owned", "as_polytope", "as_function"} -> s.f
       [] s.op = "convert_to" -> ConvertTo(s.f, s.repr)
 CheckAff(e) ==
